@@ -1,0 +1,68 @@
+//go:build verif
+// +build verif
+
+package owa
+
+// Contracts for gocv (comment-only; compiled out unless the tag "verif" is set, and empty then).
+
+// This listener's definitions of the abstract predicates of model.BiasListener
+//@ pred owaValid(l model.BiasListener, p model.MethodParameters) = typeis(p, owaParams) && p.(owaParams).Weights != nil
+//@ pred owaCovers(l model.BiasListener, p model.MethodParameters, id string) =
+//@      typeis(p, owaParams) && p.(owaParams).Weights != nil && exists k int :: 0 <= k && k < len(*p.(owaParams).Weights) && (*p.(owaParams).Weights)[k].Id == id
+//@ pred owaAcceptsAny(l model.BiasListener, x model.MethodParameters) = (typeis(x, owaParams) && x.(owaParams).Weights != nil) || typeis(x, model.WeightType)
+//@ pred owaAccepts(l model.BiasListener, x model.MethodParameters, id string) =
+//@      (typeis(x, owaParams) && x.(owaParams).Weights != nil && exists k int :: 0 <= k && k < len(*x.(owaParams).Weights) && (*x.(owaParams).Weights)[k].Id == id)
+//@   || (typeis(x, model.WeightType) && id in x.(model.WeightType).Weights)
+
+//@ func (*owaParams).find
+//@   property C07 C15 C18
+//@   requires o.Weights != nil
+//@   panics_iff [missing] !(exists k int :: 0 <= k && k < len(*o.Weights) && (*o.Weights)[k].Id == criterion.Id)
+//@   ensures [first_match] result != nil && exists k int :: 0 <= k && k < len(*o.Weights) && *result == (*o.Weights)[k] && result.Id == criterion.Id
+//@   loop 1 invariant [none_before] forall j int :: 0 <= j && j < iter ==> (*o.Weights)[j].Id != criterion.Id
+
+//@ func (*OwaBiasListener).OnCriteriaRemoved
+//@   property C07 C15
+//@   nopanic
+//@   refines model.BiasListener.OnCriteriaRemoved with validParams=owaValid, coversId=owaCovers
+//@   loop 1 invariant [ctx] fresh(newWeights) && len(newWeights) == len(*leftCriteria)
+//@   loop 1 invariant [kept] forall k int :: 0 <= k && k < iter ==> newWeights[k].Id == (*leftCriteria)[k].Id
+
+//@ func (*OwaBiasListener).OnCriterionAdded
+//@   property C07 C18
+//@   fnparam generator ensures 0.0 <= result && result < 1.0
+//@   refines model.BiasListener.OnCriterionAdded with validParams=owaValid, coversId=owaCovers, accepts=owaAccepts, acceptsAny=owaAcceptsAny
+//@   ensures [returns_single_weight] typeis(result, model.WeightType) && criterion.Id in result.(model.WeightType).Weights
+//@   ensures [weight_is_fraction_of_reference] exists k int :: 0 <= k && k < len(*params.(owaParams).Weights) && (*params.(owaParams).Weights)[k].Id == referenceCriterion.Id
+//@             && model.fractionOf(result.(model.WeightType).Weights[criterion.Id], (*params.(owaParams).Weights)[k].Weight)
+
+//@ func _sortWeightsMutate
+//@   property C03 C07
+//@   assigns *weights
+//@   ensures [same_length] len(*weights) == old(len(*weights)) && *weights == old(*weights)
+//@   ensures [ascending] forall i int, j int :: 0 <= i && i < j && j < len(*weights) ==> (*weights)[i].Weight <= (*weights)[j].Weight
+//@   ensures [members] forall k int :: 0 <= k && k < len(*weights) ==> exists j int :: 0 <= j && j < len(*weights) && (*weights)[k] == old((*weights)[j])
+//@   ensures [all_present] forall j int :: 0 <= j && j < len(*weights) ==> exists k int :: 0 <= k && k < len(*weights) && (*weights)[k] == old((*weights)[j])
+
+//@ func addCriteria
+//@   property C07
+//@   requires 0 <= offset && offset + len(*toAdd) <= len(*result) && *validationCache != nil && arr(*result) != arr(*toAdd)
+//@   assigns *result, *validationCache
+//@   ensures [copied] forall k int :: offset <= k && k < offset + len(*toAdd) ==> (*result)[k] == (*toAdd)[k - offset]
+//@   ensures [rest_unchanged] *result == old(*result) && forall k int :: 0 <= k && k < len(*result) && !(offset <= k && k < offset + len(*toAdd)) ==> (*result)[k] == old((*result)[k])
+//@   loop 1 invariant [copied] forall k int :: offset <= k && k < offset + iter ==> (*result)[k] == (*toAdd)[k - offset]
+//@   loop 1 invariant [rest_unchanged] *result == old(*result) && forall k int :: 0 <= k && k < len(*result) && !(offset <= k && k < offset + iter) ==> (*result)[k] == old((*result)[k])
+
+//@ func (*owaParams).merge
+//@   property C07 C18
+//@   requires o.Weights != nil && other.Weights != nil
+//@   ensures [merged] result != nil && result.Weights != nil && len(*result.Weights) == len(*o.Weights) + len(*other.Weights)
+//@   ensures [old_kept] forall j int :: 0 <= j && j < len(*o.Weights) ==> exists k int :: 0 <= k && k < len(*result.Weights) && (*result.Weights)[k] == (*o.Weights)[j]
+//@   ensures [new_added] forall j int :: 0 <= j && j < len(*other.Weights) ==> exists k int :: 0 <= k && k < len(*result.Weights) && (*result.Weights)[k] == (*other.Weights)[j]
+//@   ensures [sorted] forall i int, j int :: 0 <= i && i < j && j < len(*result.Weights) ==> (*result.Weights)[i].Weight <= (*result.Weights)[j].Weight
+
+//@ func (*OwaBiasListener).Merge
+//@   property C07 C18
+//@   refines model.BiasListener.Merge with validParams=owaValid, coversId=owaCovers, accepts=owaAccepts, acceptsAny=owaAcceptsAny
+//@   loop 1 invariant [converted] forall q string :: seen(q) ==> exists j int :: 0 <= j && j < len(added) && added[j].Id == q
+//@   loop 1 invariant [ctx] typeis(addition, model.WeightType) && !typeis(addition, owaParams) && fresh(added) && typeis(params, owaParams) && params.(owaParams).Weights != nil
